@@ -68,8 +68,10 @@ def make_result(letter: tuple[Any, ...], level: tuple[float, float] = (0.0, 1.0)
     feasible = letter[2]
     ident = np.array([float(sum(ord(ch) for ch in str(letter[4])) + (100 if letter[3] == "O" else 0) + (1000 if feasible is True else (2000 if feasible else 0)))])
     functions = None if kind == "nofun" else Functions.create(np.array(obj), np.array([obj]))
-    # feasible: True (no violation) | False (violation 1.0) | "slight" (violation 0.2: within the tolerance 0.5 only)
-    info = ConstraintInfo(bound_lower=np.array([-0.2 if feasible == "slight" else (1.0 if feasible else -1.0)]), bound_upper=np.array([-1.0]))
+    # feasible: True (no violation) | False (violation 1.0) | "slight" (a bound violation of 0.2 and a linear one of 0.4: each of
+    # them - not their sum - is within the tolerance 0.5, and only within that one)
+    info = ConstraintInfo(bound_lower=np.array([-0.2 if feasible == "slight" else (1.0 if feasible else -1.0)]), bound_upper=np.array([-1.0]),
+                          linear_lower=np.array([-0.4]) if feasible == "slight" else None, linear_upper=np.array([-1.0]) if feasible == "slight" else None)
     return FunctionResults(
         batch_id=None, metadata={}, evaluations=FunctionEvaluations.create(ident, np.array([[obj]])),
         realizations=Realizations(failed_realizations=np.array([math.isnan(obj)])), functions=functions, constraint_info=info)
@@ -251,6 +253,9 @@ def run_real(case: dict[str, Any]) -> dict[str, Any]:
     if case.get("too_few_at") is not None:  # from this evaluator call on every realization fails: the run ends with TOO_FEW_REALIZATIONS
         ev.fail = {(k, r, p): [("obj", 0)] for k in range(case["too_few_at"], 400) for r in range(2) for p in (-1, 0, 1, 2)}
     transforms = OptModelTransforms(objectives=ObjectiveScaler([-1.0], flip_weighted=True)) if case["maximize"] else None
+    if case.get("vscale"):  # the optimizer works on scaled / shifted variables: what BasicOptimizer reports is in the user's domain
+        scaler = VariableScaler(np.array(case["vscale"], dtype=np.float64), np.array([0.25, -0.5]))
+        transforms = OptModelTransforms(variables=scaler, objectives=None if transforms is None else transforms.objectives)
     ref = Reference(case["tol"])
     delivered: list[Any] = []
 
@@ -289,6 +294,7 @@ def hypothesis_shard(item: dict[str, Any]) -> Collector:
                     "maximize": draw(st.booleans()), "slopes": [draw(st.sampled_from([-1.0, 0.5, 1.0, 2.0])) for _ in range(8)],
                     "nan_every": draw(st.sampled_from([0, 0, 2, 3])) if method == "differential_evolution" else 0,
                     "too_few_at": draw(st.integers(1, 6)) if method != "differential_evolution" and draw(st.booleans()) else None,
+                    "vscale": draw(st.sampled_from([None, None, [2.0, 0.5], [10.0, 10.0]])),
                     "level": draw(st.sampled_from([0.0, 0.0, 1e6, -1e10, 1e10])),  # common offset of all objective values
                     "tol": draw(st.sampled_from([None, 1e-10, 0.5]))}
         events: list[Any] = []
